@@ -42,6 +42,10 @@ def correspondence(ctx):
                 if st == "ok" and cells:
                     tris.append((tri, desc))
                     break
+        # sequence: families of related triangles sharing Metadata, written one after the other in this process
+        for _ in range(12 if ctx.thorough else 2):
+            fam = c05.gen_family(rng)
+            tris += [(t, d) for t, d in fam[:4] if len(t.cells) <= 6 and c05.distinct_keys(t.cells) < 100]
         reqs, infos = [], []
         path = scratch.path(".trib")
         for tri, desc in tris:
